@@ -156,6 +156,18 @@ class Facts:
                     ln = self._len_atom_of(sym.norm(it[3][0]))
                     for l_ in ln:
                         self.add(l_, x, 1, "position found in a slice is < its length")
+            if x[0] == "call" and x[1].split("::")[-1] == "count" and x[3]:
+                # count() of a length-non-increasing adaptor chain over X.iter() is at most len(X)
+                src = x[3][0]
+                for _ in range(8):
+                    src = self.expand(src) if src[0] == "var" else src
+                    if src[0] == "call" and src[1].split("::")[-1] in ("rev", "take_while", "skip_while", "filter", "skip", "take", "step_by", "copied", "cloned", "peekable", "enumerate", "map", "fuse", "by_ref", "inspect") and src[3]:
+                        src = src[3][0]
+                        continue
+                    break
+                if src[0] == "call" and src[1].split("::")[-1] in ("iter", "iter_mut", "into_iter") and src[3]:
+                    for l_ in self._len_atom_of(sym.norm(src[3][0])):
+                        self.add(l_, x, 0, "count() of an adaptor chain over a slice <= its length")
             if x[0] == "call" and x[1].split("::")[-1] == "unwrap_or" and len(x[3]) == 2:
                 # position(..).unwrap_or(d): either an index < len(X) or d
                 c = x[3][0]
